@@ -61,3 +61,22 @@ def diff(a, b, path="$"):
     if a != b:
         return "%s: %r vs %r" % (path, a, b)
     return None
+
+
+def model_opresult(r):
+    k = r[0]
+    if k == "errors":
+        return ["errors", [model_err(e) for e in r[1]], model_stop(r[2])]
+    if k == "invalid":
+        return ["invalid", model_err(r[1])]
+    if k == "other":
+        return ["raised", model_stop(r[1])[1]] if model_stop(r[1])[0] == "raised" else r
+    return r
+
+
+def model_hist(rs):
+    if isinstance(rs, dict):
+        return rs
+    return [{"r": model_opresult(x["r"]),
+             "st": {"scopes": x["st"]["scopes"], "storeKeys": x["st"]["storeKeys"], "fetchLog": x["st"]["fetchLog"]}}
+            for x in rs]
